@@ -27,7 +27,8 @@ const B = h.BS
 type FileSpec struct {
 	Signed  h.Content `json:"signed"`
 	Written h.Content `json:"written"`
-	Slices  []int     `json:"slices"` // write sizes, cyclic
+	Slices  []int     `json:"slices"`                 // write sizes, cyclic
+	Keep    bool      `json:"keep_writing,omitempty"` // error mode: the caller keeps writing the rest after a failed Write (and only then closes)
 }
 
 type Spec struct {
@@ -128,7 +129,7 @@ func check(s Spec) h.Result {
 		var werr error
 		failedAt := -1 // cumulative end of the failing write
 		straddle := false
-		for pos < len(wr) && werr == nil {
+		for pos < len(wr) && (werr == nil || s.Files[i].Keep) {
 			n := 1
 			if len(s.Files[i].Slices) > 0 {
 				n = s.Files[i].Slices[k%len(s.Files[i].Slices)]
@@ -143,10 +144,14 @@ func check(s Spec) h.Result {
 			if pos/B != (pos+n-1)/B {
 				straddle = true
 			}
-			_, werr = w.Write(wr[pos : pos+n])
+			_, err := w.Write(wr[pos : pos+n])
 			pos += n
-			if werr != nil {
+			if err != nil && werr == nil {
+				werr = err
 				failedAt = pos
+				if s.Files[i].Keep {
+					cl = append(cl, "caller:keeps-writing-after-error")
+				}
 			}
 		}
 		cerr := w.Close()
@@ -346,6 +351,7 @@ func genFile(t *rapid.T, i int) FileSpec {
 	if rapid.IntRange(0, 9).Draw(t, "bytewise") == 0 && size < 3000 {
 		f.Slices = []int{1}
 	}
+	f.Keep = rapid.IntRange(0, 2).Draw(t, "keep-writing") == 0
 	return f
 }
 
